@@ -11,6 +11,8 @@ fn main() {
         "bytes-fidelity" => bytesfid::main(&rest),
         "c10-get" => extra::c10_get(&rest),
         "c14-extra" => extra::c14_extra(&rest),
+        "c15-life" => stress::c15(&rest),
+        "c08-stress" => stress::c08(&rest),
         "cache-replay" => replay::main(&rest),
         "rid-replay" => c18::replay(&rest),
         "rid-conc" => c18::concurrent(&rest),
